@@ -153,7 +153,7 @@ TRIMS = ['full', 'one-row', 'no-rows', 'one-col']
 # how the ordered maps of the grid (metadata, columns, column metadata) reached their order:
 # 'append' = keys added in final order; 'relocate' = first key deleted and re-inserted at the front,
 # so the creation order of the backing storage differs from the map's order
-HISTS = ['append', 'relocate', 'rows-reordered', 'overwritten']
+HISTS = ['append', 'relocate', 'rows-reordered', 'overwritten', 'after-failed-dump']
 # how the version was declared: a string, the library's shared constant object, or not at all (detected)
 VERARGS = ['str', 'const', 'detect']
 
@@ -230,6 +230,18 @@ def execute(hs, prop, fmt, oracle, ver, shape, multi, form, ents, absent, trim='
             for i in range(len(g)):
                 r = g[i]
                 g[i] = dict((k, r[k]) for k in reversed(list(r.keys())))
+        elif hist == 'after-failed-dump':
+            # an earlier dump of this very grid failed (a value no writer knows sat in a nested list); the caller repaired the grid
+            class _Unknown(object):
+                pass
+            bad = [1.0, [_Unknown()]] if ver == '3.0' else _Unknown()
+            g[0]['a'], keep = bad, g[0].get('a')
+            for m_ in (hs.MODE_ZINC, hs.MODE_JSON):
+                try:
+                    hs.dump(g, mode=m_)
+                except Exception:  # noqa
+                    pass
+            g[0]['a'] = keep
         elif hist == 'overwritten':
             # the two metadata payloads were first something else (a plain string) and are assigned in place afterwards
             g.metadata[nm['g']] = objs['gmeta']
